@@ -102,4 +102,31 @@ pub broadcast axiom fn axiom_into_iter_seq_slice<'a, T>(s: &'a [T])
     ensures #[trigger] into_iter_seq::<T, &'a [T]>(s) == s@,
 ;
 
+// ---------------------------------------------------------------- HashMap<String, V> looked up by &str
+use vstd::std_specs::hash::{obeys_key_model, contains_borrowed_key, maps_borrowed_key_to_value, borrowed_key_removed};
+
+/// String hashes/compares by content (std): it obeys vstd's hash-key model
+pub broadcast axiom fn axiom_string_obeys_key_model()
+    ensures #[trigger] obeys_key_model::<String>();
+
+/// Strings are equal iff their characters are
+pub broadcast axiom fn axiom_string_view_injective(a: String, b: String)
+    ensures (#[trigger] a@) == (#[trigger] b@) ==> a == b;
+
+/// `Borrow<str> for String` borrows the same characters: looking a `&str` up finds the key with these characters
+pub broadcast axiom fn axiom_contains_borrowed_str<V>(m: Map<String, V>, k: &str)
+    ensures #[trigger] contains_borrowed_key::<String, V, str>(m, k) <==> exists|s: String| s@ == k@ && m.contains_key(s);
+
+pub broadcast axiom fn axiom_maps_borrowed_str<V>(m: Map<String, V>, k: &str, v: V)
+    ensures #[trigger] maps_borrowed_key_to_value::<String, V, str>(m, k, v) <==> exists|s: String| s@ == k@ && m.contains_key(s) && m[s] == v;
+
+pub broadcast axiom fn axiom_borrowed_removed_str<V>(old: Map<String, V>, new: Map<String, V>, k: &str)
+    ensures #[trigger] borrowed_key_removed::<String, V, str>(old, new, k) <==>
+        forall|s: String| s@ == k@ ==> new == old.remove(s);
+
+pub broadcast group group_string_map {
+    axiom_string_obeys_key_model, axiom_string_view_injective, axiom_contains_borrowed_str, axiom_maps_borrowed_str,
+    axiom_borrowed_removed_str,
+}
+
 } // verus!
